@@ -71,7 +71,7 @@ from .. import lib_textio as T
 from ..core import MachineryError
 from ..tlc import require_ok, write_ndjson
 
-ALPHABET = '_#$;[]\'" \t\na'
+ALPHABET = '_#$;[]\'" \t\n\ra'
 RULE = ('one event = one written file; non-trivial = the supplied content contains a string that needs '
         'delimiters or escaping (blank, quote, LF, TAB, leading _ # $ ; [ ], reserved word, non-ASCII, '
         'empty) or a number with variance, or (builder) at least two calls; distinct by content')
@@ -220,8 +220,14 @@ def rand_number_var(rng):
 
 
 def rand_string(rng, maxlen=24):
-    k = rng.randrange(10)
+    k = rng.randrange(11)
     n = rng.randrange(1, maxlen + 1)
+    if k == 10:   # text with CR LF or bare CR line ends (pasted from another platform): CR is a line terminator of CIF 1.1
+        if rng.random() < 0.5:
+            return rng.choice(['a\rb', 'a b\rc', 'x\r', '\r', 'a\r\nb', 'line one\r\nline two\r\n', "it's\rhere", '\r\n',
+                               'tab\t\rend', 'Partikelgatan 2\r\nLund', 'a\r;b', '1.5\r', "both ' and \"\rkinds", 'loop_\r'])
+        return rng.choice(['\r\n', '\r']).join(''.join(rng.choice(_PRINTABLE[:96]) for _ in range(rng.randrange(0, 10)))
+                                               for _ in range(rng.randrange(2, 4)))
     if k == 0:
         return ''.join(rng.choice(ALPHABET) for _ in range(rng.randrange(0, 9)))
     if k == 1:
@@ -1074,8 +1080,9 @@ def judge_rejects(ctx, rejects, metas):
         detail = {'clause': clause, 'where': [b, j, c], 'lex_error': le, 'parse_error': pe, 'text': (text or '')[:500]}
         # a case that was accepted when it ran first and is rejected when it runs again later: the history matters
         later = ' [only when written again later, in another order]' if meta.get('orig') is not None and meta['orig'] not in rejected_tids else ''
-        if text is not None and '\r' in text:
-            # values with CR are never supplied: the CR comes from comment text (CR / CR LF line ends)
+        if text is not None and '\r' in text and all(
+                text[text.rfind('\n', 0, i) + 1:i].lstrip(' \t').startswith('#') for i, ch_ in enumerate(text) if ch_ == '\r'):
+            # every CR of the file stands in a comment line: it comes from comment text (CR / CR LF line ends)
             ctx.violation(f'{meta["api"]}: comment text with CR or CR LF line ends: the CR is written into the comment line '
                           '(CIF ends the line there, what follows is read as data)' + later, detail)
             continue
@@ -1223,7 +1230,8 @@ def validate_in_parallel(ctx, events, nproc, timeout):
 def run(ctx):
     ctx.rule = RULE
     ctx.assume('blanks = SP, HT, LF: "strings are recovered up to surrounding blanks" is read with LF as a blank '
-               '(weakest reading); CR is not tested; bare ? and . are accepted unquoted (DESIGN 3.4)')
+               '(weakest reading); CR LF and bare CR are line ends like LF (CIF 1.1): values are compared up to the spelling '
+               'of their line ends; bare ? and . are accepted unquoted (DESIGN 3.4)')
     ctx.assume('strings containing LF immediately followed by ";" cannot be carried by CIF 1.1 (TLC: NoValueHasLfSemi): '
                'an exception is accepted for them, as is any text that still reads back')
     ctx.assume('words that merely start with loop_ / stop_ / global_ (e.g. loop_x) are not generated: whether they are '
@@ -1238,7 +1246,7 @@ def run(ctx):
     ctx.assume('non-ASCII: only "the output is ASCII, the token structure is unchanged and the ASCII parts survive in '
                'order" is demanded, not a particular escape')
     ctx.assume('comments may contain CR / CR LF line ends (CIF 1.1 counts a bare CR as a line terminator: what follows a CR '
-               'inside a comment is data); values with CR remain untested (DESIGN 3.4)')
+               'inside a comment is data)')
     ctx.assume('a version identifier in the first line is optional, but if the file starts with #\\#CIF_ it must say 1.1')
     ctx.assume('single-precision numbers are generated outside 1e7 <= |x| < 1e16, where numpy pads the shortest identifying '
                'digits with zeros (-42670174208 is printed as -42670174000.0); integer and single-precision numbers only '
